@@ -27,7 +27,7 @@ def run_one(item):
         subprocess.run(["git", "-C", "/repo", "worktree", "list"], capture_output=True)
         shutil.copytree("/repo", dst, ignore=shutil.ignore_patterns(".git", "__pycache__", ".pytest_cache", "*.pyc", ".cache.pygopherd*"))
         subprocess.run(["git", "init", "-q"], cwd=dst, capture_output=True)
-        r = subprocess.run(["git", "apply", patch], cwd=dst, capture_output=True, text=True)
+        r = subprocess.run(["git", "apply", patch], cwd=dst, capture_output=True)
         if r.returncode:
             return label, "does not apply", []
         env = dict(os.environ, PGV_REPO=dst)
